@@ -700,6 +700,10 @@ CORPUS = [
     script_case("{a: []}", [["create", "/a[2]/k", "5", "INT"], ["set", "/a[2]/k", "6", "INT"], ["del", "/a[1]"]]),
     script_case("{a: [1]}", [["create", "/a[3][2]", "x", "DEFAULT"], ["set", "/a[3][0]", "y", "DEFAULT"],
                              ["set", "/a[1]", "z", "DEFAULT"]]),
+    # a Set member gathered twice (fixed: see known_findings.txt): the second coordinate names a member the first
+    # change already replaced; change_node stayed None and the NULL member of the Set was replaced instead
+    script_case("{x: !!set {1, x, foo}}", [["set", "x.foo", None, "DEFAULT"], ["set", "(x.x)+(x.x)", "true", "DEFAULT"]]),
+    script_case("{x: !!set {a, b, ~}}", [["set", "(x.a)+(x.a)", "c", "DEFAULT"]]),
     # former C04 F15 inside a history
     script_case("{a: [1, 2, 3, 4]}", [["del", "(a[2])+(a[0])"], ["set", "a[0]", "9", "DEFAULT"]]),
 ]
